@@ -2338,7 +2338,12 @@ def run_leaf_case(c):
     except Exception as e:  # noqa
         return line, 'err:construct {}: {}'.format(type(e).__name__, str(e)[:160]), \
             ['constructor raised {}: {}'.format(type(e).__name__, str(e)[:200])]
-    singular = c['stratum'] in ('singular', 'zero-entry', 'zero-point')
+    # no central-difference oracle where the code raises (NormOperator / DistOperator at the documented
+    # point) or divides by zero (ComplexModulus at a zero entry: correspondence only).  At the zero
+    # point of L2Norm / a zero point of PointwiseNorm the code returns 0 by documented convention,
+    # which IS the limit of the (symmetric) central differences of a norm: the oracle applies.
+    singular = ((c['stratum'] == 'singular' and spec['t'] in ('norm', 'dist')) or
+                c['stratum'] == 'zero-entry')
     problems = []
     try:
         with np.errstate(all='ignore'):
